@@ -61,7 +61,7 @@ def cases(draw):
 
 
 def strategy(tier):
-    return cases()
+    return st.one_of(cases(), cases(), scoped_cases())
 
 
 def build(spec):
@@ -110,6 +110,8 @@ def run(mm, text, fname=None):
 
 
 def evaluate(case):
+    if case.get("kind") == "scoped":
+        return eval_scoped(case)
     from textx.exceptions import TextXError
 
     out = Outcome()
@@ -156,6 +158,133 @@ def evaluate(case):
         out.nontrivial = nt_fail_then_ok and len(used) >= 2 and any(s["cfg"]["memoization"] for s in pool)
         out.cls(f"pool={len(pool)}", "fail_then_ok" if nt_fail_then_ok else "no_fail_then_ok")
         out.sample = {"ops": case["ops"], "grammars": [G.to_text(s["g"]) for s in pool]}
+        return out
+    finally:
+        shutil.rmtree(tmp, ignore_errors=True)
+
+
+# -- histories over a scoping language: provider objects, repositories and imports carry the state ---------------
+SCOPED_GRAMMAR = r"""
+Model: imports*=Import packages*=Package refs*=Ref;
+Import: 'import' importURI=STRING;
+Package: 'package' name=ID '{' classes*=Cls '}';
+Cls: 'class' name=ID;
+Ref: 'dot' r=[Cls:DotName] | 'slash' s=[Cls:SlashName];
+DotName: ID('.'ID)*;
+SlashName[split='/']: ID('/'ID)*;
+Comment: /\/\/.*?$/;
+"""
+
+
+@st.composite
+def scoped_cases(draw):
+    ops = []
+    for _ in range(draw(st.integers(3, 8))):
+        k = draw(st.integers(0, 9))
+        if k < 6:
+            ops.append(["str", draw(st.sampled_from(["dot", "slash"])), draw(st.sampled_from(["ok", "ok", "unknown", "syntax"])),
+                        draw(st.sampled_from(["a", "b"]))])
+        else:
+            ops.append(["file", draw(st.sampled_from(["good", "good", "lib_syntax", "lib_missing", "lib_unknown"])),
+                        draw(st.sampled_from(["dot", "slash"]))])
+    return {"kind": "scoped", "global_repo": draw(st.booleans()), "ops": ops,
+            "registration": draw(st.sampled_from(["wildcard_string", "same_object_two_keys"]))}
+
+
+def _scoped_mm(case):
+    from textx import metamodel_from_str
+    from textx.scoping.rrel import create_rrel_scope_provider
+
+    kw = {"global_repository": True} if case["global_repo"] else {}
+    mm = metamodel_from_str(SCOPED_GRAMMAR, **kw)
+    if case["registration"] == "wildcard_string":
+        mm.register_scope_providers({"*.*": "+m:packages.classes"})
+    else:
+        sp = create_rrel_scope_provider("+m:packages.classes")
+        mm.register_scope_providers({"Ref.r": sp, "Ref.s": sp, "Import.importURI": sp})
+    return mm
+
+
+def _scoped_outcome(load):
+    from textx.exceptions import TextXSemanticError, TextXSyntaxError
+
+    try:
+        m = load()
+    except TextXSyntaxError as e:
+        return ("syntax", e.line, e.col)
+    except TextXSemanticError as e:
+        return ("semantic", getattr(e, "err_type", None), e.line, e.col, os.path.basename(e.filename or ""))
+    except OSError as e:
+        return ("oserror", type(e).__name__)
+    except Exception as e:  # noqa: BLE001
+        from vt.harness import under_test_frame
+
+        if not under_test_frame(e.__traceback__):
+            raise
+        return ("exception", type(e).__name__)
+    targets = []
+    for r in m.refs:
+        t = r.r or r.s
+        # a reference left unresolved (None / not an object of the model) is part of the observed outcome
+        targets.append((type(t).__name__, getattr(getattr(t, "parent", None), "name", "?") + "." + str(getattr(t, "name", "?"))))
+    return ("ok", targets, [p.name for p in m.packages])
+
+
+def eval_scoped(case):
+    out = Outcome()
+    tmp = os.path.realpath(tempfile.mkdtemp(prefix="vt-c16s-"))
+    try:
+        main = os.path.join(tmp, "main.m")
+        lib = os.path.join(tmp, "lib.m")
+        hist = _scoped_mm(case)
+        lib_loaded_ok = False
+        failed_before_ok = ok_after_fail = False
+        seen_fail = False
+        kinds_used = set()
+        out.sample = {"ops": case["ops"], "global_repo": case["global_repo"], "registration": case["registration"]}
+        for step, op in enumerate(case["ops"]):
+            if op[0] == "str":
+                _, sep, how, pkg = op
+                s = "." if sep == "dot" else "/"
+                name = {"ok": f"{pkg}{s}c1", "unknown": f"{pkg}{s}nope", "syntax": f"{pkg}{s}"}[how]
+                text = f"package {pkg} {{ class c1 class c2 }}\n{sep} {name}\n"
+
+                def load(mm, text=text):
+                    return mm.model_from_str(text)
+            else:
+                _, state, sep = op
+                s = "." if sep == "dot" else "/"
+                if not lib_loaded_ok:
+                    # the library file may only change while no successful load has cached it
+                    if state == "lib_missing":
+                        if os.path.exists(lib):
+                            os.unlink(lib)
+                    else:
+                        with open(lib, "w") as f:
+                            f.write({"good": "package l { class lc }\n", "lib_syntax": "package l { class }\n",
+                                     "lib_unknown": "package l { class lc }\ndot l.nope\n"}[state])
+                with open(main, "w") as f:
+                    # main.m never changes (with a global repository it stays cached once it was loaded)
+                    f.write('import "lib.m"\npackage m { class mc }\ndot l.lc\nslash m/mc\nslash l/lc\n')
+
+                def load(mm):
+                    return mm.model_from_file(main)
+            kinds_used.add(op[1] if op[0] == "str" else op[2])
+            got = _scoped_outcome(lambda: load(hist))
+            want = _scoped_outcome(lambda: load(_scoped_mm(case)))
+            if op[0] == "file" and got[0] == "ok":
+                lib_loaded_ok = True
+            if got[0] != "ok":
+                seen_fail = True
+            elif seen_fail:
+                ok_after_fail = True
+            if got != want:
+                what = "error" if want[0] != "ok" else ("accept" if got[0] != "ok" else "model")
+                out.add(f"scoped_history/{what}/{op[0]}" + ("/global_repo" if case["global_repo"] else ""),
+                        f"step {step} of {case['ops']} ({case['registration']}): with history {got}, fresh metamodel {want}")
+                break
+        out.cls("kind:scoped", "global_repo" if case["global_repo"] else "local_repo", "registration:" + case["registration"])
+        out.nontrivial = ok_after_fail and len(kinds_used) >= 2
         return out
     finally:
         shutil.rmtree(tmp, ignore_errors=True)
